@@ -29,13 +29,11 @@ def are_matrices_equivalent_up_to_global_phase(
     Returns:
         Whether two matrices are equivalent up to a global phase.
     """
-    first_non_zero = next(
-        (i, j) for i in range(matrix_a.shape[0]) for j in range(matrix_a.shape[1]) if abs(matrix_a[i, j]) > ATOL
-    )
+    largest = np.unravel_index(np.argmax(np.abs(matrix_a)), matrix_a.shape)
 
-    if abs(matrix_b[first_non_zero]) < ATOL:
+    if abs(matrix_a[largest]) < ATOL or abs(matrix_b[largest]) < ATOL:
         return False
 
-    phase_difference = matrix_a[first_non_zero] / matrix_b[first_non_zero]
+    phase_difference = matrix_a[largest] / matrix_b[largest]
 
     return np.allclose(matrix_a, phase_difference * matrix_b, atol=ATOL)
